@@ -424,34 +424,30 @@ class Verdict:
         return 0
 
 
-def run_selfgen(exe, argsets, timeout=7200, tag="selfgen", env=None):
-    """Run `exe *args out.json` once per argset, all in parallel, each in its own
-    scratch directory.  Returns list of (args, returncode, parsed-json-or-None, stderr-tail)."""
+def run_selfgen(exe, argsets, timeout=7200, tag="selfgen", env=None, maxpar=None):
+    """Run `exe *args` once per argset (at most maxpar at a time), each in its own
+    scratch directory; "@OUT" in args is replaced by the result file (appended if absent).
+    Returns list of (args, returncode, parsed-json-or-None, stderr-tail)."""
     d = scratch(tag)
     e = dict(os.environ)
     if env:
         e.update(env)
-    procs = []
-    for i, args in enumerate(argsets):
+
+    def one(iargs):
+        i, args = iargs
         wd = os.path.join(d, "w%d" % i)
         os.makedirs(wd)
         out = os.path.join(wd, "out.json")
         a = [str(x) for x in args]
+        if "@OUT" not in a:
+            a.append("@OUT")
         a = [out if x == "@OUT" else x for x in a]
-        if "@OUT" not in [str(x) for x in args]:
-            a.append(out)
-        p = subprocess.Popen([exe] + a, cwd=wd, env=e, stdout=subprocess.DEVNULL,
-                             stderr=open(os.path.join(wd, "stderr"), "wb"))
-        procs.append((args, p, out, wd))
-    res = []
-    deadline = time.time() + timeout
-    for args, p, out, wd in procs:
-        try:
-            rc = p.wait(timeout=max(1, deadline - time.time()))
-        except subprocess.TimeoutExpired:
-            p.kill()
-            p.wait()
-            rc = -999
+        with open(os.path.join(wd, "stderr"), "wb") as errf:
+            try:
+                rc = subprocess.run([exe] + a, cwd=wd, env=e, stdout=subprocess.DEVNULL, stderr=errf,
+                                    timeout=timeout).returncode
+            except subprocess.TimeoutExpired:
+                rc = -999
         js = None
         if os.path.isfile(out):
             try:
@@ -459,6 +455,9 @@ def run_selfgen(exe, argsets, timeout=7200, tag="selfgen", env=None):
             except ValueError:
                 js = None
         err = open(os.path.join(wd, "stderr"), "rb").read().decode("latin-1")[-3000:]
-        res.append((args, rc, js, err))
+        shutil.rmtree(wd, ignore_errors=True)
+        return (args, rc, js, err)
+    with ThreadPoolExecutor(max_workers=maxpar or NCPU) as ex:
+        res = list(ex.map(one, list(enumerate(argsets))))
     shutil.rmtree(d, ignore_errors=True)
     return res
